@@ -196,6 +196,12 @@ func replayDet(line []byte, a *Acc) {
 			if !check("Maps.JsonStringIndent", []byte(s), err, string(ji)+"\n"+string(ji)) {
 				return
 			}
+			// nothing to indent with: still the concatenation of the per-Map forms
+			j0, _ := m.JsonIndent("", "")
+			s, err = ms.JsonStringIndent("", "")
+			if !check("Maps.JsonStringIndent(\"\",\"\")", []byte(s), err, string(j0)+"\n"+string(j0)) {
+				return
+			}
 			jis, _ := m.JsonIndent("", " ", true)
 			s, err = ms.JsonStringIndent("", " ", true)
 			if !check("Maps.JsonStringIndent(safe)", []byte(s), err, string(jis)+"\n"+string(jis)) {
